@@ -6,6 +6,9 @@ mod shapes;
 mod c19;
 mod c05;
 mod c04;
+mod c13;
+mod npy;
+mod cli;
 
 use std::io::{BufRead, Write};
 
@@ -29,10 +32,29 @@ fn eval_line(ctx: &Ctx, line: &str) -> String {
             "c19" => c19::eval(&opn, &a),
             "c05" => c05::eval(&opn, &a),
             "c04" => c04::eval(*ctxp, &opn, &a),
+            "c13" => c13::eval(*ctxp, &opn, &a),
             _ => None,
         };
         r.unwrap_or_else(|| "BAD-OP".to_string())
     })
+}
+
+/// evaluate all requests on a pool of threads, results in request order
+fn eval_all(ctx: &Ctx, reqs: &[String]) -> Vec<String> {
+    let nthreads = std::thread::available_parallelism().map(|n| n.get()).unwrap_or(4).min(16);
+    let next = std::sync::atomic::AtomicUsize::new(0);
+    let results: Vec<std::sync::Mutex<Option<String>>> = reqs.iter().map(|_| std::sync::Mutex::new(None)).collect();
+    std::thread::scope(|s| {
+        for _ in 0..nthreads {
+            s.spawn(|| loop {
+                let i = next.fetch_add(1, std::sync::atomic::Ordering::SeqCst);
+                if i >= reqs.len() { break; }
+                let r = eval_line(ctx, &reqs[i]);
+                *results[i].lock().unwrap() = Some(r);
+            });
+        }
+    });
+    results.into_iter().map(|m| m.into_inner().unwrap().unwrap_or_else(|| "NO-RESULT".into())).collect()
 }
 
 fn main() {
@@ -56,22 +78,22 @@ fn main() {
                 "c19" => c19::gen(&ctx, &mut rng, &mut reqs),
                 "c05" => c05::gen(&ctx, &mut rng, &mut reqs),
                 "c04" => c04::gen(&ctx, &mut rng, &mut reqs),
+                "c13" => c13::gen(&ctx, &mut rng, &mut reqs),
                 _ => { eprintln!("unknown property {prop}"); std::process::exit(2); }
             }
-            for r in reqs {
-                if mode == "gen" { writeln!(out, "{r}").unwrap(); }
-                else { let res = eval_line(&ctx, &r); writeln!(out, "{r}\t=>\t{res}").unwrap(); }
-            }
+            if mode == "gen" { for r in &reqs { writeln!(out, "{r}").unwrap(); } }
+            else { for (r, res) in reqs.iter().zip(eval_all(&ctx, &reqs)) { writeln!(out, "{r}\t=>\t{res}").unwrap(); } }
         }
         "eval" => {
             let stdin = std::io::stdin();
+            let mut reqs = Vec::new();
             for line in stdin.lock().lines() {
                 let line = line.unwrap();
                 let req = match line.find("\t=>\t") { Some(i) => line[..i].to_string(), None => line.clone() };
                 if req.trim().is_empty() || req.starts_with('#') { continue; }
-                let res = eval_line(&ctx, &req);
-                writeln!(out, "{req}\t=>\t{res}").unwrap();
+                reqs.push(req);
             }
+            for (r, res) in reqs.iter().zip(eval_all(&ctx, &reqs)) { writeln!(out, "{r}\t=>\t{res}").unwrap(); }
         }
         _ => { eprintln!("usage: sfs-harness run|gen <prop> <quick|thorough> <seed> | eval < requests"); std::process::exit(2); }
     }
